@@ -241,3 +241,11 @@ Proof.
     rewrite E. exact Hd. }
   rewrite IS. apply filter_ext. intros i. now apply matches_set_exact.
 Qed.
+
+(** ---- UID SEARCH UID <set> (through the common evaluator since e09cd6b) ---- *)
+Theorem uidsearch_set_exact : forall (s : seqset) (uids : list Z),
+  wf s = true -> uidsearch_set (print s) uids = addressed_uids s uids.
+Proof.
+  intros s uids H. unfold uidsearch_set, addressed_uids. apply filter_ext. intros u.
+  rewrite max_uid_same. now apply matches_set_exact.
+Qed.
